@@ -6,6 +6,10 @@ import (
 	"strings"
 	"testing"
 
+	aftpb "github.com/openconfig/gribi/v1/proto/gribi_aft"
+	spb "github.com/openconfig/gribi/v1/proto/service"
+	wpb "github.com/openconfig/ygot/proto/ywrapper"
+
 	"verifharness/ev"
 	"verifharness/gen"
 	"verifharness/mon"
@@ -56,7 +60,6 @@ func TestCheck(t *testing.T) {
 				run.Count("flushes", 1)
 				// Flush verdicts belong to C08; only the resulting contents are judged here.
 				x.Flush(nis)
-				x.M.Held = x.M.Held // held operations survive a flush
 			} else {
 				spec := g.Op()
 				res, probs := x.Do(spec)
@@ -95,8 +98,93 @@ func TestCheck(t *testing.T) {
 			run.Sample(map[string]any{"case": caseID, "forward_refs_disallowed": noFwd, "history": x.Trace})
 		}
 	})
+	// Bounded-exhaustive part: every sequence of up to L operations over a 15-symbol alphabet
+	// on one chain NH1 <- NHG1 <- ipv4 prefix (two payload variants per key), both
+	// forward-reference modes.
+	L := run.Pick(3, 4)
+	alpha := alphabet()
+	var seqs [][]int
+	var rec func(p []int)
+	rec = func(p []int) {
+		if len(p) > 0 {
+			seqs = append(seqs, append([]int{}, p...))
+		}
+		if len(p) == L {
+			return
+		}
+		for i := range alpha {
+			rec(append(p, i))
+		}
+	}
+	rec(nil)
+	ev.Parallel(len(seqs)*2, ev.Workers(), func(i int) {
+		seq := seqs[i/2]
+		noFwd := i%2 == 1
+		caseID := fmt.Sprintf("exhaustive:%v:fwd=%v", seq, !noFwd)
+		if !run.Want(caseID) {
+			return
+		}
+		sp := gen.DefaultSpace()
+		x := mon.NewRIBMon(sp, noFwd)
+		id := uint64(0)
+		for _, a := range seq {
+			id++
+			spec := alpha[a](id)
+			_, probs := x.Do(spec)
+			probs = append(probs, x.Compare()...)
+			if len(probs) > 0 {
+				report(run, caseID, x, probs)
+				break
+			}
+		}
+		if probs := x.CompareGet(); len(probs) > 0 {
+			report(run, caseID, x, probs)
+		}
+		run.Count("exhaustive_sequences", 1)
+		run.Eval(1)
+		if len(seq) == L {
+			run.Distinct(caseID)
+		}
+	})
+	run.Set("exhaustive_alphabet_size", len(alpha))
+	run.Set("exhaustive_max_length", L)
 	run.Assume("content-validity of generated payloads is decided by the generator's class tag (calibrated against the schema), not re-derived by the model")
-	run.Finish("seeded random histories (8-40 ops; a few of 2000 in thorough) of ADD/REPLACE/DELETE over 5 tables x 3 NIs with 3-4 keys per table, rich payloads, cross-NI group refs, 4% content-invalid ops, interleaved flushes; 1 in 4 with forward references disallowed. Non-trivial = history leaves entries or held operations; distinct = by full history text", 100, false)
+	run.Finish("seeded random histories (8-40 ops; a few of 2000 in thorough) of ADD/REPLACE/DELETE over 5 tables x 3 NIs with 3-4 keys per table, rich payloads, cross-NI group refs, 4% content-invalid ops, interleaved flushes; 1 in 4 with forward references disallowed; plus EVERY sequence of up to 3 (quick) / 4 (thorough) operations over a 15-symbol alphabet (ADD with two payloads, REPLACE with two payloads, DELETE, for next-hop 1, group 1 and one IPv4 prefix) in both forward-reference modes - exhaustive for that bounded space. Non-trivial = history leaves entries or held operations; distinct = by full history text", 100, false)
+}
+
+// alphabet: ADD (2 payloads) / REPLACE (2 payloads) / DELETE for each of NH 1, NHG 1 and one
+// IPv4 prefix of the default network instance.
+func alphabet() []func(id uint64) gen.OpSpec {
+	ni := "DEFAULT"
+	nh := func(kind spb.AFTOperation_Operation, ip string) func(uint64) gen.OpSpec {
+		return func(id uint64) gen.OpSpec {
+			return gen.OpSpec{NI: ni, Op: &spb.AFTOperation{Id: id, NetworkInstance: ni, Op: kind, Entry: &spb.AFTOperation_NextHop{NextHop: &aftpb.Afts_NextHopKey{Index: 1, NextHop: &aftpb.Afts_NextHop{IpAddress: gen.S(ip)}}}}}
+		}
+	}
+	nhg := func(kind spb.AFTOperation_Operation, w uint64, backup bool) func(uint64) gen.OpSpec {
+		return func(id uint64) gen.OpSpec {
+			p := &aftpb.Afts_NextHopGroup{NextHop: []*aftpb.Afts_NextHopGroup_NextHopKey{{Index: 1, NextHop: &aftpb.Afts_NextHopGroup_NextHop{Weight: gen.U(w)}}}}
+			if backup {
+				p.BackupNextHopGroup = gen.U(7)
+			}
+			return gen.OpSpec{NI: ni, Op: &spb.AFTOperation{Id: id, NetworkInstance: ni, Op: kind, Entry: &spb.AFTOperation_NextHopGroup{NextHopGroup: &aftpb.Afts_NextHopGroupKey{Id: 1, NextHopGroup: p}}}}
+		}
+	}
+	v4 := func(kind spb.AFTOperation_Operation, md bool) func(uint64) gen.OpSpec {
+		return func(id uint64) gen.OpSpec {
+			p := &aftpb.Afts_Ipv4Entry{NextHopGroup: gen.U(1)}
+			if md {
+				p.EntryMetadata = &wpb.BytesValue{Value: []byte{1, 2, 3}}
+			}
+			return gen.OpSpec{NI: ni, Op: &spb.AFTOperation{Id: id, NetworkInstance: ni, Op: kind, Entry: &spb.AFTOperation_Ipv4{Ipv4: &aftpb.Afts_Ipv4EntryKey{Prefix: "10.0.0.0/8", Ipv4Entry: p}}}}
+		}
+	}
+	A, R, D := spb.AFTOperation_ADD, spb.AFTOperation_REPLACE, spb.AFTOperation_DELETE
+	return []func(uint64) gen.OpSpec{
+		nh(A, "192.0.2.1"), nh(A, "192.0.2.2"), nh(R, "192.0.2.1"), nh(R, "192.0.2.2"), nh(D, "192.0.2.1"),
+		nhg(A, 1, true), nhg(A, 2, false), nhg(R, 1, true), nhg(R, 2, false), nhg(D, 1, false),
+		v4(A, true), v4(A, false), v4(R, true), v4(R, false), v4(D, false),
+	}
 }
 
 func opTable(s gen.OpSpec) string {
